@@ -155,16 +155,17 @@ func (cl *client) enterTLSListener() error {
 func (c *Case) request() (method string, b []byte) {
 	host := c.host()
 	var sb strings.Builder
+	method = "GET"
+	if c.Method != "" {
+		method = c.Method
+	}
 	switch c.Via {
 	case "plain":
-		method = "GET"
-		fmt.Fprintf(&sb, "GET http://%s/r/%s HTTP/1.%d\r\n", host, c.ID, c.ReqMinor)
+		fmt.Fprintf(&sb, "%s http://%s/r/%s HTTP/1.%d\r\n", method, host, c.ID, c.ReqMinor)
 	case "https":
-		method = "GET"
-		fmt.Fprintf(&sb, "GET https://%s/r/%s HTTP/1.%d\r\n", host, c.ID, c.ReqMinor)
+		fmt.Fprintf(&sb, "%s https://%s/r/%s HTTP/1.%d\r\n", method, host, c.ID, c.ReqMinor)
 	case "mitm":
-		method = "GET"
-		fmt.Fprintf(&sb, "GET /r/%s HTTP/1.%d\r\n", c.ID, c.ReqMinor)
+		fmt.Fprintf(&sb, "%s /r/%s HTTP/1.%d\r\n", method, c.ID, c.ReqMinor)
 	case "connect":
 		method = "CONNECT"
 		fmt.Fprintf(&sb, "CONNECT %s HTTP/1.%d\r\n", host, c.ReqMinor)
@@ -173,7 +174,15 @@ func (c *Case) request() (method string, b []byte) {
 	if c.ReqClose {
 		sb.WriteString("Connection: close\r\n")
 	}
-	sb.WriteString("\r\n")
+	if c.ReqUp != "" {
+		fmt.Fprintf(&sb, "Connection: Upgrade\r\nUpgrade: %s\r\n", c.ReqUp)
+	}
+	body := ""
+	if method == "POST" {
+		body = "ping"
+		sb.WriteString("Content-Type: text/plain\r\nContent-Length: 4\r\n")
+	}
+	sb.WriteString("\r\n" + body)
 	return method, []byte(sb.String())
 }
 
@@ -188,6 +197,18 @@ func (e *env) install(c *Case) {
 		sc.ck = c.CK
 		sc.creset = c.CReset
 		sc.cstall = c.Fault == "stall"
+	case "reply":
+		sc.k = -1
+		sc.fin = c.After != "keep"
+		if c.At == "connect" {
+			sc.has = true
+			sc.creply = core.MustUnHex(orEmpty(c.ReplyHex))
+			sc.ck = -1
+			sc.ctunnel = true
+		} else {
+			sc.reply = c.reply()
+			sc.eof = sc.fin
+		}
 	default:
 		return
 	}
@@ -195,11 +216,12 @@ func (e *env) install(c *Case) {
 }
 
 // observe reads one response (independent parser) and establishes what happens to the connection.
-func (e *env) observe(cl *client, method, via string, dead bool, o *Obs) {
+func (e *env) observe(cl *client, method, via string, dead bool, o *Obs) { // dead: the proxy's upstream cannot be reached
 	res, err := cl.c.ReadResponse(method, caseWait)
 	switch {
 	case err == nil && res != nil && res.Complete && res.Framing != "eof":
-		if method == "CONNECT" && res.Status/100 == 2 {
+		if (method == "CONNECT" && res.Status/100 == 2) || res.Status == 101 {
+			// what follows belongs to the tunnelled / switched-to protocol
 			o.Closed = "open"
 			o.Follow = "tunnel"
 			return
@@ -222,8 +244,8 @@ func (e *env) observe(cl *client, method, via string, dead bool, o *Obs) {
 		case err2 == nil && r2.Complete && r2.Status == 200 && string(r2.Body) == probeBody && r2.Get("X-Probe") == "follow-"+o.ID:
 			o.Follow = "ok"
 			o.Closed = "open"
-		case dead && err2 == nil && r2.Complete && r2.Status == 502 && strings.Contains(r2.Get("X-Forwarder-Error"), "refused"):
-			// this proxy's upstream refuses every connection: a clean 502 for the follow-up shows the connection is served
+		case dead && err2 == nil && r2.Complete && (r2.Status == 502 || r2.Status == 504) && r2.Has("X-Forwarder-Error"):
+			// this proxy's upstream cannot be reached: a clean error response for the follow-up shows the connection is served
 			o.Follow = "ok"
 			o.Closed = "open"
 		case cl.rec.total == before && cl.rec.ending() != "open":
@@ -291,7 +313,7 @@ func (e *env) runFault(c *Case) *Obs {
 		o.Setup = "send: " + err.Error()
 		return o
 	}
-	e.observe(cl, method, c.Via, c.Upstream == "dead", o)
+	e.observe(cl, method, c.Via, upstreamFault(c.Upstream) != "", o)
 	o.fill(cl)
 	return o
 }
@@ -495,10 +517,30 @@ func (e *env) runOne(c *Case) (o *Obs) {
 // probeAll checks that every proxy instance still serves a fresh client.
 func (e *env) probeAll() map[string]string {
 	out := map[string]string{}
+	var mu sync.Mutex
+	var wg sync.WaitGroup
 	for name, p := range e.proxies {
-		out[name] = e.probeOne(name, p)
+		// every instance the batch went through, and the plain one in any case (the instances whose upstream
+		// drops SYNs take a dial time-out to probe)
+		if _, ok := e.used.Load(name); !ok && name != "direct" {
+			continue
+		}
+		wg.Add(1)
+		go func() {
+			defer wg.Done()
+			st := e.probeOne(name, p)
+			mu.Lock()
+			out[name] = st
+			mu.Unlock()
+		}()
 	}
+	wg.Wait()
 	return out
+}
+
+// upstreamFault tells how the upstream proxy of a proxy instance fails to be reached ("" = it does not).
+func upstreamFault(upstream string) string {
+	return map[string]string{"dead": "refused", "hole": "timeout", "rst": "reset"}[strings.TrimPrefix(upstream, "s")]
 }
 
 func (e *env) probeOne(name string, p *rig.Proxy) string {
@@ -513,7 +555,7 @@ func (e *env) probeOne(name string, p *rig.Proxy) string {
 		if err := cl.enterTLSListener(); err != nil {
 			return "tls: " + err.Error()
 		}
-	case strings.HasSuffix(name, "mitm") && name != "deadmitm":
+	case strings.HasSuffix(name, "mitm") && upstreamFault(strings.TrimSuffix(name, "mitm")) == "":
 		if err := cl.enterMITM(e, p, "probe.tls.test:"+portTLSOrigin); err != nil {
 			return "mitm: " + err.Error()
 		}
@@ -524,11 +566,15 @@ func (e *env) probeOne(name string, p *rig.Proxy) string {
 	if err != nil {
 		return "no response: " + err.Error()
 	}
-	want := 200
-	if strings.HasPrefix(name, "dead") {
-		want = 502 // its upstream refuses connections; a clean 502 shows it is serving
+	if upstreamFault(strings.TrimSuffix(name, "mitm")) != "" {
+		// its upstream cannot be reached; a clean error response shows it is serving (which status is due is
+		// judged on the cases, not here)
+		if (res.Status != 502 && res.Status != 504) || !res.Has("X-Forwarder-Error") || !res.Complete {
+			return fmt.Sprintf("status %d body %q", res.Status, res.Body)
+		}
+		return "ok"
 	}
-	if res.Status != want || (want == 200 && string(res.Body) != probeBody) {
+	if res.Status != 200 || string(res.Body) != probeBody {
 		return fmt.Sprintf("status %d body %q", res.Status, res.Body)
 	}
 	return "ok"
